@@ -4,6 +4,7 @@ import (
 	"net/http"
 	"sync"
 	"sync/atomic"
+	"time"
 )
 
 // RoundRobinStrategy implements a round-robin load balancing strategy
@@ -30,9 +31,17 @@ func (rr *RoundRobinStrategy) NextBackend(r *http.Request) *Backend {
 		return nil
 	}
 
-	// Get the next index in a thread-safe way
-	idx := atomic.AddUint64(&rr.current, 1) % uint64(len(rr.backends))
-	return rr.backends[idx]
+	// Advance the rotation in a thread-safe way, skipping backends that are
+	// inside an unhealthy window; give up after one full turn.
+	now := time.Now()
+	n := uint64(len(rr.backends))
+	for i := uint64(0); i < n; i++ {
+		idx := atomic.AddUint64(&rr.current, 1) % n
+		if backend := rr.backends[idx]; backend.eligible(now) {
+			return backend
+		}
+	}
+	return nil
 }
 
 // AddBackend adds a backend to the pool
